@@ -58,6 +58,8 @@ from dataclasses import dataclass, field
 from pathlib import Path
 
 NAT, INT, BOOL, BYTES = "Nat", "Int", "Bool", "Bytes"
+STR = "List Char"                     # a Python `str` (sequence of code points)
+CHAR1 = ("Rec", "Char")               # a one-character `str` obtained by indexing a `str` (Python has no character type)
 LEAN_KEYWORDS = {"from", "at", "end", "open", "fun", "do", "then", "have", "show", "let", "in", "if", "else", "match", "with",
                  "by", "where", "def", "theorem", "structure", "class", "instance", "return", "for", "mut", "type", "Type",
                  "namespace", "section", "variable", "import", "export", "macro", "syntax", "deriving", "this", "self"}
@@ -322,6 +324,10 @@ class Translator:
                 if self.emitting and not self.declared(v.id):
                     raise Unsupported(v, f"local `{v.id}` is possibly unbound here")
                 return t[1], mangle(v.id)
+        if isinstance(v, ast.Subscript):
+            e = self.ex(v)
+            if isinstance(e.ty, tuple) and e.ty[0] == "Rec":
+                return e.ty[1], e.code
         if isinstance(v, ast.Attribute) and not (isinstance(v.value, ast.Name) and v.value.id in self.enums):
             e = self.ex(v)                                                 # a chain `a.b.c`: every link must be declared in the spec
             if isinstance(e.ty, tuple) and e.ty[0] == "Rec":
@@ -354,6 +360,25 @@ class Translator:
             raise Unsupported(n, "dict literal: values must be ints, keys must not be None")
         items = ", ".join(f"({self.coerce(ke, kt, n)}, {self.coerce(ve, vt, n)})" for ke, ve in zip(ks, vs))
         return E(f"[{items}]", ("Dict", kt, vt))
+
+    def ex_JoinedStr(self, n):
+        """an f-string whose interpolated values are all `str` (no conversion, no format spec): concatenation"""
+        parts = []
+        for v in n.values:
+            if isinstance(v, ast.Constant) and isinstance(v.value, str):
+                if not all(32 <= ord(c) < 127 and c not in '"\\' for c in v.value):
+                    raise Unsupported(n, "non-ASCII / escaped text in an f-string")
+                parts.append(f'"{v.value}".toList')
+            elif isinstance(v, ast.FormattedValue) and v.conversion == -1 and v.format_spec is None:
+                e = self.ex(v.value)
+                if e.ty is None:
+                    return E("_", STR)
+                if e.ty != STR:
+                    raise Unsupported(n, f"f-string interpolation of a {lean_ty(e.ty)} (only str)")
+                parts.append(e.code)
+            else:
+                raise Unsupported(n, "f-string with conversion / format spec")
+        return E("(" + " ++ ".join(parts or ['([] : List Char)']) + ")", STR)
 
     def ex_UnaryOp(self, n):
         if isinstance(n.op, ast.USub):
@@ -469,7 +494,7 @@ class Translator:
             if isinstance(base, tuple) and base[0] == "Rec":
                 if not (self.pure and base[1] in [v[0] for v in self.pure.enums.values()]):
                     raise Unsupported(n, f"== on {lean_ty(base)}: only enum members are compared (by identity); __eq__ of other records is outside the subset")
-            elif base not in (NAT, INT, BOOL, BYTES):
+            elif base not in (NAT, INT, BOOL, BYTES, STR):
                 raise Unsupported(n, f"== on {lean_ty(base)}")
             if is_opt(t) and t[1] is None:
                 raise Unsupported(n, "comparison of None with None")
@@ -484,7 +509,7 @@ class Translator:
         f = n.func
         if isinstance(f, ast.Name) and f.id == "len" and len(n.args) == 1 and not n.keywords:
             a = self.ex(n.args[0])
-            if strip_opt(a.ty) not in (BYTES, None) and not (isinstance(a.ty, tuple) and a.ty[0] == "List"):
+            if strip_opt(a.ty) not in (BYTES, STR, None) and not (isinstance(a.ty, tuple) and a.ty[0] == "List"):
                 raise Unsupported(n, "len of a non-sequence")
             if a.ty is None:
                 return E("_", NAT)
@@ -582,6 +607,12 @@ class Translator:
                 return E("_", a.ty[2])
             self.raising = True                                            # KeyError
             return E(f"(← Py.dictGet {a.code} {self.coerce(k, a.ty[1], n)})", a.ty[2])
+        if a.ty == STR and not isinstance(n.slice, ast.Slice):
+            i = self._num(self.ex(n.slice), n)
+            if i.ty != NAT:
+                raise Unsupported(n, "index of a str that is not provably non-negative")
+            self.raising = True                                            # IndexError
+            return E(f"(← Py.getItem {a.code} {i.code})", CHAR1)
         if strip_opt(a.ty) != BYTES:
             raise Unsupported(n, "indexing of a non-byte-sequence")
         base = self.coerce(a, BYTES, n)
@@ -936,7 +967,22 @@ class Translator:
             return self._assign_field(fld, self.ex(v), st, ind, v)
         raise Unsupported(st, "augmented assignment target outside the subset")
 
+    def _typing_guard(self, st):
+        """`if not isinstance(x, T): odxraise(…)` — a typing assertion written with odxraise: dropped like `assert isinstance`"""
+        t = st.test
+        return (isinstance(t, ast.UnaryOp) and isinstance(t.op, ast.Not) and isinstance(t.operand, ast.Call)
+                and isinstance(t.operand.func, ast.Name) and t.operand.func.id == "isinstance" and not st.orelse
+                and len(st.body) == 1 and isinstance(st.body[0], ast.Expr) and isinstance(st.body[0].value, ast.Call)
+                and isinstance(st.body[0].value.func, ast.Name) and st.body[0].value.func.id == "odxraise"
+                and all(isinstance(a, ast.Constant) for a in st.body[0].value.args) and not st.body[0].value.keywords)
+
     def st_If(self, st, ind, kw="if"):
+        if kw == "if" and self._typing_guard(st):
+            d = f"L{st.lineno}: {ast.unparse(st.test)} → {ast.unparse(st.body[0])}"
+            if d not in self.dropped:
+                self.dropped.append(d)
+            self.emit(ind, "-- (dropped: a typing assertion)", st)
+            return False
         c = self.ex(st.test)
         if c.ty != BOOL:
             raise Unsupported(st.test, "condition is not a boolean expression (truthiness is outside the subset)")
@@ -1501,6 +1547,28 @@ def render_inherit_prio(repo: Path) -> str:
 
 def regenerate_inherit_prio(repo, verif):
     return _write(Path(verif) / "lean" / "OdxVerif" / "Gen" / "InheritPrio.lean", render_inherit_prio(Path(repo)))
+
+
+ITEMKEY_SPEC = PureSpec(
+    params={"self": (("Rec", "NamedItemList"), None), "item": (("Rec", "Item"), "item")},
+    binders="(isDigit : Char → Bool) (kw : List Name) (item : Item)",
+    attrs={("Item", "short_name"): ("{}.sn", STR)},
+    # `c.isdigit()` for a one-character str `c` and `keyword.iskeyword` are tables of the interpreter: parameters of the rendering
+    methods={("Char", "isdigit"): ("(isDigit {})", BOOL)},
+    calls={(None, "iskeyword"): ("(kw.contains {0})", [STR], BOOL, False)},
+    open_ns="OdxVerif.Nil")
+
+
+def render_itemkey(repo: Path) -> str:
+    rel = "odxtools/nameditemlist.py"
+    return translate_pure_function((Path(repo) / rel).read_text(), "_get_item_key", ITEMKEY_SPEC, "OdxVerif.Nil.Gen",
+                                   ["OdxVerif.Model.Nil", "OdxVerif.Model.PyRt"], rel, cls_name="NamedItemList", lean_name="itemKey")
+
+
+def regenerate_itemkey(repo, verif):
+    # the model reads `str.isdigit` as `Char.isDigit` (ASCII short names): the two agree on ASCII in this interpreter
+    assert all(chr(c).isdigit() == (48 <= c <= 57) for c in range(128))
+    return _write(Path(verif) / "lean" / "OdxVerif" / "Gen" / "NilItemKey.lean", render_itemkey(Path(repo)))
 
 
 def limit_spec():
